@@ -35,6 +35,9 @@ checks = {
  "C13": ("lmtp", "Lmtp.tla models the status collector as the code builds it (one bounded channel per distinct address, capacity = multiplicity) with the backend as a nondeterministic program running concurrently with the emitter; TLC checks for every recipient list up to the bound, every program within the contract and every interleaving that each reply carries the right status, channels never overflow, no deadlock, termination; every recipient list x program x status timing (before/after consuming the message) x return {nil, error, panic} is then run on the real LMTP server via DATA, BDAT LAST in one and two chunks, a backend failing inside the LAST chunk, and plain backends, and the recorded reply sequences are judged by TLC against Lmtp!Expected; replies must name their recipient; a final response that never completes is reported when the handler is proven blocked",
          "recipient lists up to 3 (quick) / 4 (thorough) over two addresses; backend programs stay within the documented contract",
          "TLA+ model checking (TLC, safety + liveness) + exhaustive program enumeration on the real server judged by TLC"),
+ "C15": ("clientcmd", "ClientCmd.tla defines, for every subset of the extensions the client looks at, every subset/variant of the MailOptions/RcptOptions fields and every class of address argument, whether Mail/Rcpt fail locally or which parameter keys the single line they write carries; TLC checks on all 56736 combinations that only negotiated parameters are written, that a requested REQUIRETLS/SMTPUTF8 is never dropped, that an argument that would split the line is a local error and that a local error writes nothing; TLC dumps the expected result per combination and the real client is driven against a scripted fake server that advertises the subset (one third after a re-greeting whose first EHLO advertised the complement) and records every octet; every string up to length 3 (quick) / 4 (thorough) over {CR, LF, NUL, SP, '<', '>', 'a'} is passed in every string-typed argument and the octets written must form at most one line",
+         "quick: every fifth MAIL combination (rotating with VERIF_SEED) and all RCPT combinations; thorough: all",
+         "TLA+ exhaustive enumeration (TLC) + real client driven per combination against a recording fake server"),
  "C16": ("dotenc", "DotEnc.tla defines the client's dot-encoding and Normalize over body tokens {'.', bare LF, CRLF, other}; TLC proves for every body up to the bound that the server-side declarative reader (DataStream.tla) recovers Normalize(body) from DotEncode(body) and that the first end marker is the client's own; every body up to length 5 (quick) / 7 (thorough) plus random longer ones is written through the real client in three Write partitions to a real server (SMTP and LMTP, accepting and rejecting) and the octet classes the backend read are judged by TLC against Normalize; envelope, the identity of the other octets, Close's verdict, the error of a second Close and the undisturbed next command are checked by the harness",
          "CR occurs only inside CRLF in the generated bodies, as the property assumes",
          "TLA+ encode/decode theorem (TLC) + recorded client-to-server transfers judged by TLC"),
